@@ -13,6 +13,8 @@ type Ruleset []node
 type Tree struct {
 	nodes Ruleset
 	hsum  uint64
+	// Copy of the rule text the tree was parsed from; nil if parsing failed.
+	src []byte
 }
 
 // Argument for getter/callback/modifier.
